@@ -82,6 +82,7 @@ type Op struct {
 	Path    string `json:"path"`
 	Path2   string `json:"path2,omitempty"`
 	Real    string `json:"real,omitempty"` // Path with symlinks resolved on its deepest existing ancestor
+	Real2   string `json:"real2,omitempty"`
 	Write   bool   `json:"write"`             // write-class operation
 	Flags   int    `json:"flags,omitempty"`
 	Escaped bool   `json:"escaped,omitempty"` // write-class op outside the sandbox (refused)
